@@ -51,7 +51,9 @@ type FuncContract struct {
 	Ensures   []*Clause
 	Invs      []*Clause
 	Sites     []*Clause
+	Updates   []*Clause // precise ghost-table updates performed by the function
 	Modifies  []string
+	Preserves []string // with 'modifies heap': components that are nevertheless unchanged
 	HasMod    bool
 	Nilable   map[string]bool // parameter names or "result", "result.N"
 	AllowGo   bool
@@ -88,6 +90,7 @@ type Contracts struct {
 	NonNil  map[string]bool // "pkgpath.Type.Field" or "elem:<type string>"
 	FCopied []*FieldsCopied
 	Axioms  []*Clause
+	TypeInvs []*Clause
 	Files   []string
 	Witness []string
 }
@@ -98,7 +101,7 @@ var clauseKeywords = map[string]bool{
 	"func": true, "requires": true, "ensures": true, "modifies": true, "pure": true, "trusted": true,
 	"loop": true, "site": true, "ghost": true, "nonnil": true, "nilable": true, "fields_copied": true,
 	"sweep": true, "package": true, "axiom": true, "allow": true, "witness": true, "nosafety": true,
-	"deferrule": true, "skipfield": true,
+	"deferrule": true, "skipfield": true, "preserves": true, "typeinv": true, "updates": true,
 }
 
 // LoadContracts reads //@ clauses from zz_contracts_verif.go files under repo and *.gvc files under depsDir.
@@ -246,6 +249,19 @@ func (cs *Contracts) parseFile(path, pkg string, external bool) error {
 			} else {
 				cur.Ensures = append(cur.Ensures, c)
 			}
+		case "updates":
+			if cur == nil {
+				return fail("updates outside func")
+			}
+			gs, err := parseGhostSet(rest)
+			if err != nil {
+				return fail("%v", err)
+			}
+			counts[cur.Name+"/updates"]++
+			for _, t := range tags {
+				cur.Tags[t] = true
+			}
+			cur.Updates = append(cur.Updates, &Clause{Kind: "updates", Text: rest, Tags: tags, File: path, Line: rc.line, Ghost: gs, Index: counts[cur.Name+"/updates"]})
 		case "modifies":
 			if cur == nil {
 				return fail("modifies outside func")
@@ -256,6 +272,27 @@ func (cs *Contracts) parseFile(path, pkg string, external bool) error {
 					cur.Modifies = append(cur.Modifies, m)
 				}
 			}
+		case "preserves":
+			if cur == nil {
+				return fail("preserves outside func")
+			}
+			cur.Preserves = append(cur.Preserves, strings.Fields(strings.ReplaceAll(rest, ",", " "))...)
+		case "typeinv":
+			// typeinv <type> : <expr over self>
+			i := strings.Index(rest, ":")
+			if i < 0 {
+				return fail("typeinv <type> : <expr>")
+			}
+			save := cur
+			cur = nil
+			c, err := mk("typeinv", strings.TrimSpace(rest[i+1:]))
+			cur = save
+			if err != nil {
+				return err
+			}
+			c.Site = strings.TrimSpace(rest[:i])
+			c.Detail = pkg
+			cs.TypeInvs = append(cs.TypeInvs, c)
 		case "pure":
 			if cur == nil {
 				return fail("pure outside func")
@@ -423,7 +460,7 @@ func splitWord(s string) (string, string) {
 func parseGhostDecl(kind, rest string) (*GhostDecl, error) {
 	gd := &GhostDecl{Kind: kind}
 	switch kind {
-	case "fact", "func":
+	case "fact", "func", "table":
 		i := strings.Index(rest, "(")
 		j := strings.LastIndex(rest, ")")
 		if i < 0 || j < i {
@@ -441,7 +478,12 @@ func parseGhostDecl(kind, rest string) (*GhostDecl, error) {
 			}
 		}
 		tail := strings.TrimSpace(rest[j+1:])
-		if kind == "fact" {
+		if kind == "table" {
+			gd.Result = tail
+			if gd.Result == "" {
+				gd.Result = "int"
+			}
+		} else if kind == "fact" {
 			gd.Result = "bool"
 			gd.Monotone = true
 			if tail != "" && tail != "monotone" {
@@ -489,12 +531,25 @@ func parseGhostSet(s string) (*GhostSet, error) {
 		return gs, nil
 	}
 	if i := strings.Index(s, ":="); i >= 0 {
-		gs.Name = strings.TrimSpace(s[:i])
+		lhs := strings.TrimSpace(s[:i])
 		v, err := ParseSpec(strings.TrimSpace(s[i+2:]))
 		if err != nil {
 			return nil, err
 		}
 		gs.Val = v
+		if strings.Contains(lhs, "(") {
+			e, err := ParseSpec(lhs)
+			if err != nil {
+				return nil, err
+			}
+			c, ok := e.(*ECall)
+			if !ok {
+				return nil, fmt.Errorf("bad table update %q", s)
+			}
+			gs.Name, gs.Args = c.Fun, c.Args
+			return gs, nil
+		}
+		gs.Name = lhs
 		return gs, nil
 	}
 	return nil, fmt.Errorf("bad ghost statement %q", s)
